@@ -374,6 +374,22 @@ func runDriverTop(c *harness.Ctx) harness.Result {
 		p.Sample = append(p.Sample, &profile.Sample{Value: []int64{v}, Location: []*profile.Location{loc}})
 		vals[fn.Name] = v
 	}
+	// a time-typed profile also states its duration: the legend then gives the total as a
+	// percentage of it
+	var wantPct *big.Rat
+	if fam.def == "s" && r.Intn(2) == 0 {
+		tot := new(big.Rat)
+		for name := range vals {
+			vals[name] = 1 + vals[name]%100000
+		}
+		for i, smp := range p.Sample {
+			smp.Value[0] = vals[fmt.Sprintf("fn%d", i)]
+			tot.Add(tot, mul(smp.Value[0], fu.factor))
+		}
+		p.DurationNanos = 1 + r.Int63n(20000000000)
+		wantPct = new(big.Rat).Quo(tot, new(big.Rat).SetInt64(p.DurationNanos))
+		wantPct.Mul(wantPct, big.NewRat(100, 1))
+	}
 	desc := fmt.Sprintf("-top -unit=%s on values in %q: %v", target, fs.spelling, vals)
 	res := harness.Result{NonTrivial: true, Sig: desc, Sample: desc}
 	out, ui, rr := drv.Report(map[string]*profile.Profile{"p": p}, []string{"p"}, map[string]bool{"top": true, "trim": false}, map[string]string{"unit": target}, nil, nil, nil)
@@ -440,6 +456,68 @@ func runDriverTop(c *harness.Ctx) harness.Result {
 	}
 	if found != 3 {
 		return harness.Violation("%s: %d of 3 entries found in the report\n%s", desc, found, out)
+	}
+	// the same values divided by -divide_by and printed one by one (-traces picks a unit per value)
+	if !explicit {
+		div := []float64{2, 1000, 1024, 0.5, 3}[r.Intn(5)]
+		tout, tui, trr := drv.Report(map[string]*profile.Profile{"p": p}, []string{"p"}, map[string]bool{"traces": true}, map[string]string{"unit": "minimum"}, nil, map[string]float64{"divide_by": div}, nil)
+		if trr.Panic != "" || trr.Err != nil {
+			return harness.Violation("%s -traces -divide_by=%v failed: %v %s %v", desc, div, trr.Err, trr.Panic, tui.Errs)
+		}
+		c.Stat("driver_traces_divided", 1)
+		rows := regexp.MustCompile(`(?m)^\s*(\S+)\s+(fn[0-9])\s*$`).FindAllStringSubmatch(tout, -1)
+		if len(rows) != 3 {
+			return harness.Violation("%s -traces -divide_by=%v: %d of 3 traces found\n%s", desc, div, len(rows), tout)
+		}
+		for _, row := range rows {
+			v := vals[row[2]]
+			back, ok := parseLabel(row[1], fam)
+			if !ok {
+				return harness.Violation("%s -traces -divide_by=%v: value %q of %s is not a number with a unit of the source family\n%s", desc, div, row[1], row[2], tout)
+			}
+			scaled := int64(float64(v) / div) // pprof scales the integer sample value
+			orig := mul(scaled, fu.factor)
+			_, wu := autoExpect(fam, orig)
+			var uf *big.Rat
+			for _, u := range fam.units {
+				if u.canon == wu {
+					uf = u.factor
+				}
+			}
+			if uf == nil {
+				uf = fu.factor
+			}
+			tol := new(big.Rat).Mul(rat(5001, 1000000), uf)
+			tol.Add(tol, fu.factor) // one source unit for the integer scaling
+			tol.Add(tol, new(big.Rat).Mul(new(big.Rat).Abs(orig), big.NewRat(1, 1e9)))
+			d := new(big.Rat).Sub(back, orig)
+			if d.Abs(d).Cmp(tol) > 0 {
+				of, _ := orig.Float64()
+				bf, _ := back.Float64()
+				return harness.Violation("%s -traces -divide_by=%v: %s (value %d) is printed as %q = %v base units; value/divide_by is %v base units\n%s", desc, div, row[2], v, row[1], bf, of, tout)
+			}
+		}
+	}
+	if wantPct != nil {
+		m := regexp.MustCompile(`Duration: [^\n]*\(\s*([0-9.e+-]+)%\)`).FindStringSubmatch(out)
+		if m == nil {
+			return harness.Violation("%s duration=%dns: the legend does not give the total as a percentage of the duration\n%s", desc, p.DurationNanos, out)
+		}
+		got, _ := strconv.ParseFloat(m[1], 64)
+		want, _ := wantPct.Float64()
+		ok := false
+		switch {
+		case m[1] == "100":
+			ok = want >= 99.94 && want <= 100.06
+		case want >= 1:
+			ok = math.Abs(got-want) <= 0.0051+want*1e-9
+		default:
+			ok = math.Abs(got-want) <= 0.06*want // two significant digits
+		}
+		c.Stat("duration_percentages", 1)
+		if !ok {
+			return harness.Violation("%s duration=%dns: the legend says the total is %s%% of the duration; total/duration is %.6g%%\n%s", desc, p.DurationNanos, m[1], want, out)
+		}
 	}
 	return res
 }
@@ -688,7 +766,7 @@ func init() {
 	harness.Register(&harness.Check{
 		ID:    "C15",
 		Level: "exploration",
-		Rule: "part lattice (exhaustive over the enumerated lattice): every alias x 5 spellings (lower, upper, title, plural, upper plural) of every unit as source x every alias of every unit of the family as target x boundary values {0, +-1, factor-1, factor, factor+1 for every unit step, 2^53+-1, MaxInt64, MinInt64, ...}; plus auto/minimum, negation, unknown and foreign targets. part random: random int64 values, unknown source units. part labels: Label read back through its printed unit within half a display digit, monotone. part drivertop: the real driver's -top -unit=<any alias | minimum> on a profile whose sample unit is any spelling: every flat value read back through the unit it is printed in lies within half a display digit of the exact value, and an explicit unit is the one shown. part percentage. part scaleprofiles: 2-4 profiles with two measured columns (bytes, time or GCU family; half of the time both of the same family so that one unit string needs two different conversions) next to a non-convertible column; every column must be harmonised to the finest unit among the inputs, sample counts and the other column unchanged, physical totals exact (GCU: within 1e-12 relative); every fifth case one profile's column is in an unknown unit or in a unit of another family, at any position of the list, and ScaleProfiles must refuse. " +
+		Rule: "part lattice (exhaustive over the enumerated lattice): every alias x 5 spellings (lower, upper, title, plural, upper plural) of every unit as source x every alias of every unit of the family as target x boundary values {0, +-1, factor-1, factor, factor+1 for every unit step, 2^53+-1, MaxInt64, MinInt64, ...}; plus auto/minimum, negation, unknown and foreign targets. part random: random int64 values, unknown source units. part labels: Label read back through its printed unit within half a display digit, monotone. part drivertop: the real driver's -top -unit=<any alias | minimum> on a profile whose sample unit is any spelling: every flat value read back through the unit it is printed in lies within half a display digit of the exact value, and an explicit unit is the one shown; the same values under -divide_by printed one by one by -traces (a unit per value) must read back as value/divide_by; for time-typed profiles with a duration the legend's 'total as a percentage of the duration' must be total/duration within display rounding. part percentage. part scaleprofiles: 2-4 profiles with two measured columns (bytes, time or GCU family; half of the time both of the same family so that one unit string needs two different conversions) next to a non-convertible column; every column must be harmonised to the finest unit among the inputs, sample counts and the other column unchanged, physical totals exact (GCU: within 1e-12 relative); every fifth case one profile's column is in an unknown unit or in a unit of another family, at any position of the list, and ScaleProfiles must refuse. " +
 			"oracle: exact math/big.Rat unit tables (1e-12 relative tolerance for float64). non-trivial = every case; distinct = distinct (source spelling, values)",
 		Assumptions: []string{"unit tables as documented in pprof's measurement package: B..PB powers of 1024; ns/us/ms/s/hrs; GCU SI prefixes", "results are float64: exact ratio and identity are judged within 1e-12 relative error (1 ulp differences from multiply-then-divide are not display-visible)"},
 		Parts: []harness.Part{
